@@ -425,7 +425,7 @@ distinct (key class, length class) stream cells",
     total.merge(parts);
     // ---- 2. many keys x random streams x independent partitions (all cores)
     let nkeys: u64 = match tier {
-        "quick" => 6000,
+        "quick" => 24000,
         "thorough" => 400_000,
         _ => 6,
     };
@@ -748,7 +748,7 @@ HMAC-SHA1(direction constant, K) after dropping 1024 bytes; receiver must recove
 distinct = (key class, directions crossing 256 / 65536 bytes) cells + session keys"
         .to_string();
     let (nkeys, len, huge): (usize, usize, usize) = match tier {
-        "quick" => (1200, 70_000, 1),
+        "quick" => (16000, 70_000, 2),
         "thorough" => (60_000, 70_000, 16),
         _ => (2, 600, 0),
     };
